@@ -415,6 +415,58 @@ struct InflateSession {
                 return !rr.violated();
         }
 
+        // one-shot decoder against EVERY sink size 0..n+2 (small streams only): the guard page sits directly after the sink
+        bool sweep_oneshot()
+        {
+                if (!plan.geti("os_sweep") || plain.size() > 1500 || bytes.size() > 4000 || !dict.empty() || need_dict_zlib)
+                        return true;
+                COUNT("io.oneshot_sink_sweep");
+                Slot *si = g_arena.alloc(bytes.size(), place, "os_in", 0, 1);
+                if (!si)
+                        return false;
+                memcpy(si->data, bytes.data(), bytes.size());
+                size_t step = plain.size() > 600 ? 1 + plain.size() / 600 : 1;
+                for (size_t cap = 0; cap <= plain.size() + 2; cap += (cap + 300 > plain.size() ? 1 : step)) {
+                        Slot *ss = g_arena.alloc(sizeof(struct inflate_state), PLACE_END, "os_state", fill + cap, 8);
+                        Slot *so = g_arena.alloc(cap, PLACE_END, "os_out", fill + 13 + cap, 1);
+                        if (!ss || !so)
+                                return false;
+                        struct inflate_state *s = (struct inflate_state *) ss->data;
+                        int ret = 0;
+                        h.calls++;
+                        if (GUARDED(gc, {
+                                    isal_inflate_init(s);
+                                    s->crc_flag = mode;
+                                    s->next_in = si->data;
+                                    s->avail_in = (uint32_t) bytes.size();
+                                    s->next_out = so->data;
+                                    s->avail_out = (uint32_t) cap;
+                                    ret = isal_inflate_stateless(s);
+                            })) {
+                                report_fault(rr, h, gc.fi, strf("isal_inflate_stateless (%zu input bytes, avail_out %zu of %zu needed, mode %d)", bytes.size(), cap, plain.size(), mode).c_str());
+                                return false;
+                        }
+                        if (!g_arena.canary_ok(so) || !g_arena.canary_ok(ss) || !g_arena.canary_ok(si)) {
+                                rr.fail("C05.canary", strf("isal_inflate_stateless with avail_out %zu changed bytes outside its declared buffers", cap));
+                                return false;
+                        }
+                        if (!(ret == 0 || ret == ISAL_END_INPUT || ret == ISAL_OUT_OVERFLOW || ret == ISAL_NEED_DICT || (ret <= -1 && ret >= -6))) {
+                                rr.fail("C06.ret_undocumented", strf("isal_inflate_stateless returned %d", ret));
+                                return false;
+                        }
+                        if (pristine && ret == 0 && s->block_state == ISAL_BLOCK_FINISH && (cap < plain.size() || memcmp(so->data, plain.data(), plain.size()))) {
+                                rr.fail("C06.false_success", strf("one-shot decoder reports completion with avail_out %zu although the stream decodes to %zu bytes", cap, plain.size()));
+                                return false;
+                        }
+                        h.sigmix(0x5eeb ^ (uint64_t) (ret & 0xff) << 8);
+                        g_arena.release(ss);
+                        g_arena.release(so);
+                }
+                h.unusual++;
+                g_arena.release(si);
+                return true;
+        }
+
         // ------------------------------------------------------------ streaming run
         struct inflate_state *st = nullptr;
         Slot *s_state = nullptr, *s_in = nullptr;
@@ -825,7 +877,7 @@ struct InflateSession {
                                 fprintf(stderr, " %02x", b);
                         fprintf(stderr, "\n");
                 }
-                if (!run_oneshot())
+                if (!run_oneshot() || !sweep_oneshot())
                         return;
                 run_stream();
                 judge();
@@ -848,6 +900,7 @@ static Json gen_inflate(Rng &r0, const std::string &focus, int tier)
         if (focus == "C11")
                 fmt = 1 + (int) r.below(2);
         p.set("os_out", r.chance(1, 6) ? (int64_t) (1 + r.logsize(200000)) : 0);
+        p.set("os_sweep", (int) r.chance(1, focus == "C05" || focus == "C06" ? 6 : 20));
         p.set("fmt", fmt).set("mode", (int) r.below(4)).set("zlevel", (int) r.below(4)).set("ihb", (int) (r.chance(1, 4) ? 15 : 0));
         Json src = Json::obj();
         int kind = (int) r.below(3);
